@@ -24,7 +24,7 @@ import (
 )
 
 type forgeOp struct {
-	kind string // rlen, hsf, alert, frag
+	kind string // rlen, hsf, alert, frag, hsv (kxv.go)
 	k    int    // index of the protected record (rlen), of the record (alert), of the handshake message (hsf)
 	// rlen
 	mode string // cut, ins
@@ -72,6 +72,9 @@ type recFilter struct {
 	net.Conn
 	op  *forgeOp // nil: pass every Write through unchanged (records and messages are still logged)
 	ctx parseCtx
+	// edit (op.kind "hsv"): replaces the first plaintext handshake message of type op.mt; nil result = leave it.
+	// Called with f.mu held.
+	edit func(f *recFilter, msg []byte) []byte
 
 	mu      sync.Mutex
 	buf     []byte
@@ -93,7 +96,7 @@ type recFilter struct {
 func (f *recFilter) Total() int { f.mu.Lock(); defer f.mu.Unlock(); return f.total }
 
 func (f *recFilter) reframing() bool {
-	return f.op != nil && (f.op.kind == "hsf" || f.op.kind == "frag")
+	return f.op != nil && (f.op.kind == "hsf" || f.op.kind == "frag" || f.op.kind == "hsv")
 }
 
 func (f *recFilter) Write(p []byte) (int, error) {
@@ -254,6 +257,16 @@ func (f *recFilter) flushPend() []byte {
 // editMsg returns the bytes that replace handshake message number i.
 func (f *recFilter) editMsg(i int, msg []byte) []byte {
 	o := f.op
+	if o.kind == "hsv" {
+		if f.applied || int(msg[0]) != o.mt || f.edit == nil {
+			return msg
+		}
+		if out := f.edit(f, msg); out != nil {
+			f.applied = true
+			return out
+		}
+		return msg
+	}
 	if o.kind != "hsf" || f.applied || i != o.k {
 		return msg
 	}
